@@ -311,7 +311,12 @@ class ElectronicControlUnit:
             next_wakeup = self.j1939_dll.async_job_thread(now)
 
             # check timer events
-            for event in self._timer_events:
+            # iterate over a copy: callbacks add and remove events, and an expired
+            # event is removed below; none of this may skip another event
+            for event in list(self._timer_events):
+                if not any(event is e for e in self._timer_events):
+                    # removed by a callback earlier in this pass
+                    continue
                 if event['deadline'] > now:
                     if next_wakeup > event['deadline']:
                         next_wakeup = event['deadline']
@@ -327,8 +332,8 @@ class ElectronicControlUnit:
                         if next_wakeup > event['deadline']:
                             next_wakeup = event['deadline']
                     else:
-                        # remove from list
-                        self._timer_events.remove( event )
+                        # remove this very event from the list (the callback may have done so already)
+                        self._timer_events[:] = [e for e in self._timer_events if e is not event]
 
             time_to_sleep = next_wakeup - time.time()
             if time_to_sleep > 0:
